@@ -39,15 +39,22 @@ def build_demo(wt, demo, out, asan, extra=""):
 
 def main():
     prop, n = sys.argv[1], sys.argv[2]
-    src = "/tmp/seed_%s/out/%s" % (prop, n)
+    root = "/tmp/seed_%s" % prop
+    label = n
+    for i, a in enumerate(sys.argv):
+        if a == "--root":
+            root = sys.argv[i + 1]
+        if a == "--label":
+            label = sys.argv[i + 1]
+    src = "%s/out/%s" % (root, n)
     if not os.path.exists(os.path.join(src, "patch.diff")):
         print("no patch in", src)
         return 2
-    wt = "/tmp/sv_%s_%s" % (prop, n)
+    wt = "/tmp/sv_%s_%s" % (prop, label)
     sh("git -C /repo worktree remove --force %s" % wt)
     shutil.rmtree(wt, ignore_errors=True)
     rc, out = sh("%s/mkwt.sh %s" % (VERIF, wt))
-    meta = {"property": prop, "seed": n, "at": time.strftime("%Y-%m-%d %H:%M:%S"), "repo_head": sh("git -C /repo log --format=%h -1")[1].strip()}
+    meta = {"property": prop, "seed": label, "at": time.strftime("%Y-%m-%d %H:%M:%S"), "repo_head": sh("git -C /repo log --format=%h -1")[1].strip()}
     notes = open(os.path.join(src, "notes.txt")).read() if os.path.exists(os.path.join(src, "notes.txt")) else ""
     asan = "fsanitize" in notes or "asan" in notes.lower()
     m = re.search(r"(-Wl,--wrap=\S+)", notes)
@@ -79,7 +86,7 @@ def main():
         meta["demo_output_with_change"] = out[-600:]
         # run the checks on the patched tree
         fired = {}
-        props = sys.argv[3].split(",") if len(sys.argv) > 3 and not sys.argv[3].startswith("--") else [prop]
+        props = sys.argv[3].split(",") if len(sys.argv) > 3 and not sys.argv[3].startswith("--") and sys.argv[2] != sys.argv[3] else [prop]
         for p in props:
             rc, out = sh("%s/check %s --src %s/src" % (VERIF, p, wt))
             fired[p] = {"exit": rc, "findings": [l for l in out.splitlines() if l.startswith(("FINDING", "ANALYSIS-BROKEN"))][:10]}
@@ -96,7 +103,7 @@ def main():
             meta["demo_exit_with_change"] != 0 and meta["demo_exit_pristine"] == 0
         meta["confirmed"] = ok
         meta["detected"] = any(v["exit"] == 1 for v in fired.values())
-        dst = os.path.join(VERIF, "seeded", "%s-%s" % (prop, n))
+        dst = os.path.join(VERIF, "seeded", "%s-%s" % (prop, label))
         if ok:
             os.makedirs(dst, exist_ok=True)
             for fn in os.listdir(src):
